@@ -6,7 +6,7 @@ L1 == <<"lit", "1">>
 L2 == <<"lit", "2">>
 D(p) == <<"lit", "d_" \o p>>       \* the default of parameter p
 
-Base == [ deco |-> FALSE, sel |-> <<"m","f">>, kind |-> "fn", pos |-> <<>>, npd |-> 0, kwo |-> <<>>, kwd |-> {},
+Base == [ deco |-> FALSE, twin |-> <<>>, sel |-> <<"m","f">>, kind |-> "fn", pos |-> <<>>, npd |-> 0, kwo |-> <<>>, kwd |-> {},
           va |-> FALSE, vk |-> FALSE, dflt |-> {}, allow |-> {"*"}, deny |-> {}, body |-> "record",
           api |-> "configurable" ]
 
@@ -52,8 +52,12 @@ ReqShapes == {
   [ReqShape("r7", "cls", <<"p">>, 1, <<>>, {}, TRUE, TRUE, {<<"p", Req>>}) EXCEPT !.api = "register"],
   [ReqShape("r8", "fn", <<"p","q">>, 1, <<>>, {}, FALSE, FALSE, {<<"q", Req>>}) EXCEPT !.api = "external"],
   \* two keyword-only parameters: the list of missing names is in signature order whatever order they were found in
-  ReqShape("r9", "fn",  <<"p">>, 0, <<"q","k">>, {"k"}, FALSE, FALSE, {<<"k", Req>>}) }
-ReqRegs == { {c} : c \in ReqShapes }
+  ReqShape("r9", "fn",  <<"p">>, 0, <<"q","k">>, {"k"}, FALSE, FALSE, {<<"k", Req>>}),
+  \* the same function registered a second time under another name (twin: the selector that owns the function), with
+  \* its own lists; and a function that was decorated before it was registered
+  [ReqShape("r9b", "fn", <<"p">>, 0, <<"q","k">>, {"k"}, FALSE, FALSE, {<<"k", Req>>}) EXCEPT !.twin = <<"m","r9">>, !.deny = {"q"}, !.api = "external"],
+  [ReqShape("r10", "fn", <<"p","q">>, 1, <<>>, {}, FALSE, FALSE, {<<"q", D("q")>>}) EXCEPT !.deco = TRUE, !.api = "external"] }
+ReqRegs == { {c} : c \in { x \in ReqShapes : x.twin = <<>> } } \cup { { x \in ReqShapes : x.sel[2] \in {"r9", "r9b"} } }
 ReqRegsQuick == { {c} : c \in { x \in ReqShapes : x.sel[2] \in {"r2", "r3", "r9"} } }
 
 (* C11: allow / deny lists *)
